@@ -97,11 +97,23 @@ pub fn run(ctx: &Ctx) -> Verdict {
         .push(vcore::run_proptest(ctx, "unordered-chains", n, gen::scenario(cfg(0)), check));
     v.subs
         .push(vcore::run_proptest(ctx, "mixed-ordered-chains", n, gen::scenario(cfg(110)), check));
+    // the same chain positions handed out to racing threads: every schedule of the small
+    // configurations (engine E3, shared with C10): the multiset of responses must be positions 1..N
+    #[cfg(feature = "std")]
+    for mut s in super::c10::run_kinds(ctx, &[(2, 1), (2, 2), (3, 1)], &[super::c10::Kind::UnorderedChain]) {
+        let renamed = format!("racing-{}", s.name);
+        s.rename(renamed);
+        v.subs.push(s);
+    }
     v.subs.extend(super::variant_reports(ctx, &["nostd-spin"]));
     v
 }
 
 pub fn replay(_sub: &str, case: Value) -> Result<(), String> {
+    #[cfg(feature = "std")]
+    if _sub.starts_with("racing") {
+        return super::c10::replay(_sub, case);
+    }
     let scn: Scenario = serde_json::from_value(case).map_err(|e| format!("HARNESS: bad case: {e}"))?;
     check(&scn).map(|_| ())
 }
